@@ -401,6 +401,7 @@ func scenarioTruncate(seed int64, idx int) ScenarioOut {
 			s.nodes = append(s.nodes, dst)
 		}
 		if round == 1 && terr == nil {
+			n.balance(drainer.Address(), -1) // spent everything before this truncation: exactly zero now
 			// the drained wallet offers its old funds again: must never be confirmed (C02 over checkpoint + live)
 			tr := craftTrx(drainer, s.recvRich.Address(), "drain-again", nil, spice.Melange{Currency: 3, SupplementaryCurrency: 7}, s.now())
 			n.create(&tr, -1)
